@@ -452,7 +452,8 @@ namespace vh
                     for (size_t i = 0; i < n; ++i)
                     {
                         double a = std::ldexp(res[0].flat(i), K);
-                        ax[i] = (std::isfinite(a) && std::fabs(a) < 2.0e9 && a == std::floor(a));
+                        // exact-domain flag: an integer small enough for TLC's 32-bit balance (x 256)
+                        ax[i] = (std::isfinite(a) && std::fabs(a) < 2.0e6 && a == std::floor(a));
                         ai[i] = ax[i] ? static_cast<long long>(a) : 0;
                         double ga = std::ldexp(grid->nodes_areas(i), -2 * dsc);
                         areas[i] = grid->nodes_areas(i);
